@@ -37,7 +37,7 @@ def gen(rng, tier, dist):
         inner = rng.random() < 0.3      # a switch inside the sub-tree it enables (sub/ and arr#3/)
         opts = {"p_soft": 0.6 if rng.random() < 0.5 else 0.0, "p_sel": 0.8, "p_ptr": 0.7,
                 "p_rdep": 0.7, "p_nodef": 0.03, "p_inner": 0.6 if inner else 0.0, "p_arr": 0.7 if inner else 0.4,
-                "p_self": 0.5 if rng.random() < 0.3 else 0.0}
+                "p_self": 0.8 if rng.random() < 0.3 else 0.0}
         app = sc.static_app() if static else sc.gen_app(rng, opts)
         ref = sc.Ref(app)
         if not ref.flat:
@@ -46,7 +46,9 @@ def gen(rng, tier, dist):
             dist["macro-made application"] = dist.get("macro-made application", 0) + 1
         tree, flat, apro = app.tree(), sc.flat_text(ref.flat), sc.apro_text(app, ref.flat, ref.dirs)
         nops = rng.choice([3, 4, 5, 6, 8, 12])
-        ops, mops = sc.gen_ops(rng, ref, nops, focus=(c % 3 == 0))
+        # files with a dependency among their lines: every third application, and all those with a switch inside
+        # the directory it governs (rSelf / "name/toggle")
+        ops, mops = sc.gen_ops(rng, ref, nops, focus=(c % 3 == 0 or opts["p_self"] > 0 or opts["p_inner"] > 0))
         st = [list(v) if ref.exists(i) else None for i, v in enumerate(ref.st)]
         want = sc.expected_lines_of_state(ref, st)
         paths = sorted((k[:-2] if k.endswith("~[") else k) for k in want)
